@@ -7,6 +7,7 @@ package main
 // monitor itself; reference integrals in big.Rat, log2 / 2^x in 700-bit floats.
 
 import (
+	"sort"
 	"fmt"
 	"math/big"
 	"time"
@@ -90,7 +91,7 @@ func runC10(c *vk.Ctx) {
 	c.R.Rule = "cases = histories with a balancer, a stableswap and a concentrated pool, 40..120 real blocks of 1 ms .. 3 days (idle blocks, several price moves per block, joins/exits, the concentrated pool emptied and refilled to provoke spot-price errors), keep period 2h..48h with pruning epochs, then 200..500 queries per history: ArithmeticTwap / GeometricTwap / ...ToNow for both quote directions with start/end on, between, just before and after record times. The monitor reads the end-of-block spot prices itself after every block and compares every answer with the time-weighted mean over canonical milliseconds (arithmetic: exact after the final truncation; geometric: within half a unit of the last kept significant figure), checks min/max bounds, reciprocity of the geometric directions, the error flag on intervals in which an errored price was in force, and that answers inside the keep window are identical before and after pruning. distinct_nontrivial counts distinct (pool kind, twap kind, #records in force bucket, starts on record?, ends now?, touches error?, after pruning?) tuples."
 	nHist := c.N(120, 960)
 	c.Cases("history", nHist, func(i int, r *vk.Rng) {
-		ch := chain.New(chain.Options{Denoms: []string{"aaa", "bbb", "ccc"}, NumAccounts: 6, Epochs: map[string]time.Duration{"day": 6 * time.Hour, "week": 1000 * time.Hour}})
+		ch := chain.New(chain.Options{Denoms: []string{"aaa", "bbb", "bbbb", "ccc"}, NumAccounts: 6, Epochs: map[string]time.Duration{"day": 6 * time.Hour, "week": 1000 * time.Hour}})
 		defer ch.Close()
 		tk := ch.App.TwapKeeper
 		keep := []time.Duration{2 * time.Hour, 12 * time.Hour, 48 * time.Hour}[r.Intn(3)]
@@ -105,6 +106,10 @@ func runC10(c *vk.Ctx) {
 		newPool := func(kind string, denoms []string) uint64 {
 			id := ch.App.PoolManagerKeeper.GetNextPoolId(ch.Ctx) - 1
 			kinds[id] = kind
+			// pairs are kept in the order x/twap keeps them (asset0 = lexicographically first denom): the
+			// geometric accumulator is the log of asset0's price, the other direction is its reciprocal
+			denoms = append([]string{}, denoms...)
+			sort.Strings(denoms)
 			for a := 0; a < len(denoms); a++ {
 				for b := a + 1; b < len(denoms); b++ {
 					pairs = append(pairs, &c10Pair{pool: id, a0: denoms[a], a1: denoms[b]})
@@ -113,13 +118,15 @@ func runC10(c *vk.Ctx) {
 			return id
 		}
 		amt := func(lo, hi int) sdkmath.Int { return sdkmath.NewIntFromBigInt(r.BigMag(lo, hi)) }
+		// the third asset is either uosmo or a denom that has another asset's name as a strict prefix
+		third := []string{"uosmo", "bbbb"}[r.Intn(2)]
 		bm := balancer.NewMsgCreateBalancerPool(lp.Addr, balancer.NewPoolParams(osmomath.MustNewDecFromStr("0.003"), osmomath.ZeroDec(), nil),
-			[]balancer.PoolAsset{{Weight: sdkmath.NewInt(1 + r.I64n(5)), Token: sdk.NewCoin("aaa", amt(8, 14))}, {Weight: sdkmath.NewInt(1 + r.I64n(5)), Token: sdk.NewCoin("bbb", amt(8, 14))}, {Weight: sdkmath.NewInt(1 + r.I64n(5)), Token: sdk.NewCoin("uosmo", amt(8, 14))}}, "")
+			[]balancer.PoolAsset{{Weight: sdkmath.NewInt(1 + r.I64n(5)), Token: sdk.NewCoin("aaa", amt(8, 14))}, {Weight: sdkmath.NewInt(1 + r.I64n(5)), Token: sdk.NewCoin("bbb", amt(8, 14))}, {Weight: sdkmath.NewInt(1 + r.I64n(5)), Token: sdk.NewCoin(third, amt(8, 14))}}, "")
 		if res := ch.Exec(&bm); !res.OK() {
 			c.Violate("C10.setup", nil, "balancer: %s", res.ErrString())
 			return
 		}
-		balID := newPool("balancer", []string{"aaa", "bbb", "uosmo"})
+		balID := newPool("balancer", []string{"aaa", "bbb", third})
 		base := amt(9, 13)
 		sm := stableswap.NewMsgCreateStableswapPool(lp.Addr, stableswap.PoolParams{SwapFee: osmomath.MustNewDecFromStr("0.001"), ExitFee: osmomath.ZeroDec()}, sdk.NewCoins(sdk.NewCoin("aaa", base), sdk.NewCoin("ccc", base.MulRaw(1+r.I64n(3)))), []uint64{1, 1}, "")
 		if res := ch.Exec(&sm); !res.OK() {
@@ -127,12 +134,17 @@ func runC10(c *vk.Ctx) {
 			return
 		}
 		stID := newPool("stableswap", []string{"aaa", "ccc"})
-		cm := clmodel.NewMsgCreateConcentratedPool(lp.Addr, "bbb", "uosmo", 100, osmomath.MustNewDecFromStr("0.001"))
+		// token0 / token1 of the concentrated pool in either alphabetical order
+		cl0, cl1 := "bbb", "uosmo"
+		if r.Bool() {
+			cl0, cl1 = "uosmo", "bbb"
+		}
+		cm := clmodel.NewMsgCreateConcentratedPool(lp.Addr, cl0, cl1, 100, osmomath.MustNewDecFromStr("0.001"))
 		if res := ch.Exec(&cm); !res.OK() {
 			c.Violate("C10.setup", nil, "cl: %s", res.ErrString())
 			return
 		}
-		clID := newPool("cl", []string{"bbb", "uosmo"})
+		clID := newPool("cl", []string{cl0, cl1})
 		var clPositions []uint64
 		addCLPos := func() {
 			a0, a1 := amt(8, 14), amt(8, 14)
@@ -196,7 +208,7 @@ func runC10(c *vk.Ctx) {
 			for k := r.Intn(4); k > 0; k-- {
 				switch r.Intn(8) {
 				case 0, 1:
-					ds := []string{"aaa", "bbb", "uosmo"}
+					ds := []string{"aaa", "bbb", third}
 					x := r.Intn(3)
 					swap(balID, ds[x], ds[(x+1+r.Intn(2))%3])
 				case 2:
@@ -213,7 +225,7 @@ func runC10(c *vk.Ctx) {
 					}
 				case 5: // proportional join (touches the pool, keeps the price)
 					sh := gammtypes.InitPoolSharesSupply.QuoRaw(10 + r.I64n(1000))
-					ch.Exec(&gammtypes.MsgJoinPool{Sender: lp.Addr.String(), PoolId: balID, ShareOutAmount: sh, TokenInMaxs: sdk.NewCoins(sdk.NewCoin("aaa", sdkmath.NewIntWithDecimal(1, 40)), sdk.NewCoin("bbb", sdkmath.NewIntWithDecimal(1, 40)), sdk.NewCoin("uosmo", sdkmath.NewIntWithDecimal(1, 40)))})
+					ch.Exec(&gammtypes.MsgJoinPool{Sender: lp.Addr.String(), PoolId: balID, ShareOutAmount: sh, TokenInMaxs: sdk.NewCoins(sdk.NewCoin("aaa", sdkmath.NewIntWithDecimal(1, 40)), sdk.NewCoin("bbb", sdkmath.NewIntWithDecimal(1, 40)), sdk.NewCoin(third, sdkmath.NewIntWithDecimal(1, 40)))})
 				case 6: // empty the concentrated pool: its spot price query errors until it is refilled
 					if len(clPositions) > 0 && r.Intn(3) == 0 {
 						for _, id := range clPositions {
@@ -243,7 +255,11 @@ func runC10(c *vk.Ctx) {
 			default:
 				dt = time.Duration(r.I64n(int64(20 * time.Minute)))
 			}
-			dt = dt.Round(time.Millisecond)
+			if i%2 == 0 {
+				dt = dt.Round(time.Millisecond) // every other history keeps whole-millisecond block times
+			} else if r.Intn(3) == 0 {
+				dt += time.Duration(r.I64n(int64(time.Millisecond))) // sub-millisecond parts on top of round steps too
+			}
 			if dt < time.Millisecond {
 				dt = time.Millisecond
 			}
